@@ -95,6 +95,16 @@ static std::vector<CorpusEntry> make_corpus(bool with_big) {
         for (int ne : {127, 128, 129}) { MB b; b.Vn(ne + 2); for (int i = 0; i < ne - 3; ++i) b.E(i, i + 1); b.HF({ne - 1, ne, ne + 1}); fin("halfedges" + std::to_string(2 * ne), b, true); }  // face uses the last halfedges
         for (int nf : {127, 128, 129}) { MB b; b.Vn(5); for (int i = 0; i < nf - 4; ++i) { b.m.faces.push_back({b.HE(0, 1), b.HE(1, 4), b.HE(4, 0)}); } b.tet(0, 1, 2, 3); fin("halffaces" + std::to_string(2 * (int)b.m.faces.size()), b, true); }
         for (int nv : {65535, 65536, 65537}) { MB b; b.Vn(nv); b.E(nv - 1, nv - 2); b.E(0, nv - 1); fin("verts" + std::to_string(nv), b, true); }
+        // valence boundaries: one polygon with n edges (face valence n), cells with n halffaces (pillow pairs [+ a pyramid for odd n])
+        for (int n : {254, 255, 256, 257, 65535, 65536, 65537}) { MB b; b.Vn(n); std::vector<int> cyc; for (int i = 0; i < n; ++i) cyc.push_back(i); b.HF(cyc); b.HF({0, 2, 1}); fin("facevalence" + std::to_string(n), b, true); }
+        for (int n : {254, 255, 256, 257}) {
+            MB b; b.Vn(8 + 3 * (n / 2 + 1));
+            std::vector<int> hfs;
+            if (n % 2) { for (int h : {b.HF({3, 2, 1, 0}), b.HF({0, 1, 4}), b.HF({1, 2, 4}), b.HF({2, 3, 4}), b.HF({3, 0, 4})}) hfs.push_back(h); }
+            for (int k = 0; (int)hfs.size() < n; ++k) { int v = 8 + 3 * k; int h = b.HF({v, v + 1, v + 2}); hfs.push_back(h); hfs.push_back(h ^ 1); }
+            b.C(hfs); b.tet(0, 1, 2, 5);
+            fin("cellvalence" + std::to_string(n), b, true);
+        }
         for (int ne : {32767, 32768, 32769}) { MB b; b.Vn(4); for (int i = 0; i < ne - 3; ++i) b.E(i % 3, 3); b.HF({0, 1, 2}); fin("halfedges" + std::to_string(2 * (int)b.m.edges.size()), b, true); }
     }
     return c;
